@@ -191,6 +191,7 @@ type world struct {
 	stamp        int64
 	inSleep      int32
 	info         *vkit.Info
+	only         string // violations of the other property are not recorded: they must not cut the history short
 	bChanged     bool
 	handover     int
 	acceptedSet  int
@@ -203,7 +204,7 @@ type world struct {
 
 func (w *world) violate(prop, format string, a ...interface{}) {
 	w.mu.Lock()
-	if len(w.viol) < 20 {
+	if len(w.viol) < 20 && (prop == w.only || prop == "C03") {
 		w.viol = append(w.viol, Violation{prop, fmt.Sprintf(format, a...)})
 	}
 	w.mu.Unlock()
@@ -274,7 +275,7 @@ func (w *world) install() {
 				w.mu.Lock()
 				old := w.B
 				if nv < old {
-					if len(w.viol) < 20 {
+					if len(w.viol) < 20 && w.only == "C02" {
 						w.viol = append(w.viol, Violation{"C02", fmt.Sprintf("stored time-window bound decreased: %s -> %s (by member slot %d)", fmtT(old), fmtT(nv), si)})
 					}
 				}
@@ -302,7 +303,7 @@ func (w *world) recordGrant(m *mem, ts pdpb.Timestamp, count uint32, start, end 
 	w.mu.Lock()
 	defer w.mu.Unlock()
 	add := func(p, f string, a ...interface{}) {
-		if len(w.viol) < 20 {
+		if len(w.viol) < 20 && p == w.only {
 			w.viol = append(w.viol, Violation{p, fmt.Sprintf(f, a...)})
 		}
 	}
@@ -376,7 +377,7 @@ func (w *world) newMember(i, gen int, offset int64) *mem {
 }
 
 // Run executes a case and returns run information and the violations found.
-func Run(c Case) (vkit.Info, []Violation) {
+func Run(c Case, only string) (vkit.Info, []Violation) {
 	var info vkit.Info
 	sl, f, err := getSlots()
 	if err != nil {
@@ -385,7 +386,7 @@ func Run(c Case) (vkit.Info, []Violation) {
 	}
 	root := f.Root()
 	w := &world{c: c, f: f, sl: sl, root: root, tsKey: path.Join(root, "timestamp"), ldKey: path.Join(root, "leader"),
-		base: time.Date(2021, 6, 1, 12, 0, 0, 0, time.UTC).UnixNano(), holder: -1, info: &info}
+		base: time.Date(2021, 6, 1, 12, 0, 0, 0, time.UTC).UnixNano(), holder: -1, info: &info, only: only}
 	w.install()
 	sleepHook.Store(func(d time.Duration) { w.onSleep(d) })
 	defer func() {
